@@ -10,6 +10,11 @@ CHECKS = {
          "Every reachable state of the real MaxValueTracker for m<=8 (quick) / m<=11 (thorough) slots under update(k,v) with v from a 4-5 value alphabet and reset is visited; each transition re-materialises the real tracker, calls the real method and reads the node array back; slot=min offered, node=max(children), root=max(slots), is_update_possible(v)<=>v<max, and absence of internal assertion failures are checked in every state. Depth-bounded sequences from new() give an exploration that does not use from_raw. This is complete for the bounded alphabet: the tracker only compares values, so other values behave like these.",
          "hook H1 wrapper is faithful; slot counts beyond the bound and values outside the alphabet are not explored",
          "DESIGN.md §4 C15"),
+ "C17": ("model_checking",
+         "probabilistic explicit-state exploration: all generator scripts of the real shuffle enumerated",
+         "The real FYshuffle is run under a scripted generator that the harness fully controls; all m! scripts for m<=9 (quick) / m<=11 (thorough) are enumerated and the map script->order is shown to be a bijection onto the permutations, so every order has probability prod 1/r exactly (up to the 2^-52 granularity of the generator, whose interval boundaries are probed word by word for every r<=64 and selected r up to 2^26). All pre-reset histories up to 2m draws followed by reset and all m! scripts are compared with a fresh instance, and all scripts of 2m-3m draws without reset are checked block-wise. Exact, no tolerance.",
+         "rand's Uniform<f64> word->value map (self-checked); sizes beyond the bound not explored",
+         "DESIGN.md §4 C17"),
 }
 PENDING_REASON = "check not built yet in this revision (see DESIGN.md §4 for the planned model-checking approach)"
 
